@@ -47,6 +47,12 @@ Record case := mkCase { k_talign : Z ; k_lines : list string ; k_doc : doc }.
 Definition case_model (k : case) : bool := doc_eqb (to_model (k_talign k) (map text_of_string (k_lines k))) (k_doc k).
 Definition cases_model (ks : list case) : list bool := map case_model ks.
 
+(* ---- the functions of scc/line.py and scc/config.py that to_model does not call: SccLine.get_style (words of a line, style
+   value) and TextAlignment.from_value (string, configuration index or -1 for ValueError) ---- *)
+Definition style_case (k : list Z * Z) : bool := line_style (fst k) =? snd k.
+Definition align_case (k : string * Z) : bool :=
+  match text_align_of (text_of_string (fst k)) with Some i => i =? snd k | None => snd k =? -1 end.
+
 (* ---- oracle 2: the reference screen S (Spec/Cea608Screen.v) against the implementation's document ---- *)
 From TT Require Import Spec.Cea608Screen.
 (* a judged case: the stream as parsed by the harness (one rate per stream), the raw lines, the configuration and
